@@ -78,6 +78,7 @@ class Failure:
     kind: str  # mismatch kind or exception type + frame
     detail: str = ""  # human-readable detail (not part of the bucket key)
     sig: str = ""  # structural signature refining the bucket
+    data: Any = None  # structured details for finding predicates (not in the key)
 
     @property
     def key(self) -> str:
@@ -89,6 +90,7 @@ class Failure:
             "kind": self.kind,
             "detail": self.detail,
             "sig": self.sig,
+            "data": self.data,
         }
 
 
@@ -99,8 +101,8 @@ class Outcome:
     classes: List[str] = field(default_factory=list)
     excluded: Optional[str] = None  # case skipped: name of the excluded class
 
-    def fail(self, clause, kind, detail="", sig=""):
-        self.failures.append(Failure(clause, kind, str(detail)[:2000], sig))
+    def fail(self, clause, kind, detail="", sig="", data=None):
+        self.failures.append(Failure(clause, kind, str(detail)[:2000], sig, data))
 
 
 def exc_kind(exc: BaseException) -> str:
@@ -152,6 +154,10 @@ class Recorder:
             self.excluded[out.excluded] = self.excluded.get(out.excluded, 0) + 1
             return
         self.evaluations += 1
+        for _tag, deep in getattr(out, "extra_runs", ()):
+            self.notes["fault_runs"] = self.notes.get("fault_runs", 0) + 1
+            if deep:
+                self.notes["fault_runs_after_first_patch"] = self.notes.get("fault_runs_after_first_patch", 0) + 1
         for c in out.classes:
             self.classes[c] = self.classes.get(c, 0) + 1
         if out.nontrivial:
